@@ -30,6 +30,12 @@ def c05(proj, rep, tier):
     rep.floor('F2 sqrt(1-C^2) sites in the closed forms', n, 2)
     n = numeric.f1(proj, rep, ['numqi.entangle.eof', 'numqi.entangle.measure', 'numqi.entangle._misc', 'numqi.utils'])
     rep.floor('F1 log sites in entangle measures + utils', n, 10)
+    n = numeric.f5(proj, rep, ['numqi.entangle.eof', 'numqi.entangle.measure', 'numqi.entangle._misc', 'numqi.utils'])
+    rep.floor('F5 clamped square roots in the closed forms', n, 5)
+    n = kdefects.ar2(proj, rep, None)
+    rep.floor('AR2 multipartite reshapes with role-named sizes', n, 12)
+    nfun, nmemo = kdefects.mc1(proj, rep, ENTANGLE)
+    rep.floor('MC1 functions of the entangle modules scanned for module-level memos', nfun, 60)
 
 
 def c06(proj, rep, tier):
@@ -56,6 +62,8 @@ def c13(proj, rep, tier):
     rep.floor('V2 state-derived attributes of the convex-roof setters', n, 6)
     n = manifold.w5(proj, rep, ['numqi.manifold._stiefel.to_stiefel_polar'])
     rep.floor('W5 Gram-matrix orthonormalisation of the Stiefel map used by the models', n, 2)
+    n = numeric.f5(proj, rep, ['numqi.entangle.eof', 'numqi.entangle.measure'])
+    rep.floor('F5 clamped square roots in the closed forms', n, 4)
     n = numeric.f1(proj, rep, ['numqi.entangle.eof', 'numqi.entangle.measure'])
     rep.floor('F1 log sites in eof / measure', n, 2)
     n = numeric.f2(proj, rep, ['numqi.entangle.eof', 'numqi.entangle.measure'])
@@ -162,6 +170,8 @@ def c02(proj, rep, tier):
     rep.floor('W1 delegation arms (theta reaches the map)', narms, 19)
     nsite, ntyped = gellmann.g2(proj, rep, ['numqi.manifold._internal', 'numqi.manifold._stiefel'])
     rep.floor('G2 projected Gell-Mann synthesis sites in the manifold maps', ntyped, 6)
+    n = manifold.w7(proj, rep, MANIFOLD)
+    rep.floor('W7 branch paths whose theta column slices are typed', n, 6)
     rep.assume('full rank of the Jacobian at generic theta is value-level: only necessary conditions (parameter count, theta '
                'placed in a field the projection keeps, theta reaches the map) are decided')
     rep.assume('Stiefel so-exp/so-cayley at rank==dim parametrise SO(d)/SU(d) (as the option name says), so the bound used '
